@@ -471,6 +471,10 @@ func tamperCases(rng *rand.Rand, dir string, writes []int, perClass int) []tcase
 		if k+1 < len(chunks) {
 			out = append(out, tcase{dir, tamper{Kind: "swap", Frame: k}})
 		}
+		if k >= 2 {
+			// reflection: the reader's own frame k-1 / k / k+1 in the place of the sender's frame k
+			out = append(out, tcase{dir, tamper{Kind: "reflect", Frame: k, Dist: []int{-1, 0, 1}[rng.Intn(3)]}})
+		}
 		out = append(out, tcase{dir, tamper{Kind: "trunc-mid", Frame: k, Offset: 1 + rng.Intn(frameSealed-1)}})
 		out = append(out, tcase{dir, tamper{Kind: "trunc-boundary", Frame: k}})
 	}
